@@ -197,6 +197,20 @@ def c12_target(spec, ready=None):
         return 'slept'
     if kind == 'return-unpicklable':
         return threading.Lock()
+    if kind == 'log-loop':
+        # log without pause until killed: the pipe to the parent is full most of the time
+        import logging
+
+        lg = logging.getLogger('vf.c12.loop')
+        pad = 'p' * spec[1]
+        t0 = time.monotonic()
+        i = 0
+        while time.monotonic() - t0 < 30:
+            lg.info('rec %d %s', i, pad)
+            i += 1
+        return 'logged'
+    if kind == 'return-unrebuildable':
+        return [1, TwoArgInit(1, 2)]  # pickles here, cannot be unpickled by the receiver (its constructor needs two arguments)
     if kind == 'os-exit':
         import os as _os
 
